@@ -1,3 +1,200 @@
-(** C05 — placeholder while the correspondence is being set up *)
-From Coq Require Import ZArith Reals Bool List.
-From KV Require Import Scalar RInst Geom Curves Path Flatten C05_proofs.
+(** C05 — Flattening yields a faithful polyline of the path.
+    Model: model/Flatten.v ([flatten] = the behaviour the property requires, i.e. the code with
+    proposed_fixes/C05-flatten-after-close.diff; [flatten_pinned] = the pinned code).
+    Statements only; proofs in proofs/C05_proofs.v.
+    The structural theorems hold for EVERY scalar type, hence for binary64 itself;
+    the numeric ones are about the real instance (exact arithmetic, total division x/0 = 0). *)
+From Coq Require Import ZArith Reals Bool List Sorted.
+From KV Require Import Scalar RInst Geom Curves Path Flatten FlattenSpec C05_proofs.
+Import ListNotations.
+Local Open Scope R_scope.
+
+(** ** flatten_kinds: only MoveTo / LineTo / ClosePath are emitted (any scalar; pinned code and
+    required behaviour alike; [None] is the model's "runaway" error value, see C05_flatten_total) *)
+Theorem C05_flatten_kinds : forall (T : Type) (S : Scalar T) keep (tol : T) els out,
+  flatten_gen keep tol els = Some out -> forallb is_flat_el out = true.
+Proof. intros T S. exact (@flatten_gen_kinds T S). Qed.
+
+(** over the reals the model never reports a runaway: flatten is total *)
+Theorem C05_flatten_total : forall keep (tol : R) (els : list (PathEl R)),
+  exists out, flatten_gen keep tol els = Some out /\ forallb is_flat_el out = true.
+Proof. exact flatten_kinds_R. Qed.
+
+(** ** flatten_runs: for every path beginning with MoveTo (every element history), the output is
+    the concatenation, in input order, of one run per input element: MoveTo, ClosePath and LineTo
+    unchanged; a QuadTo / CurveTo -> the interior vertices computed from its segment (current
+    point, which after ClosePath is the sub-path start, and the stored control points) followed
+    by EXACTLY the stored end point. Any scalar type. *)
+Theorem C05_flatten_runs : forall (T : Type) (S : Scalar T) (tol : T) p0 els out,
+  flatten tol (MoveTo p0 :: els) = Some out ->
+  runs_of tol (fsqrt tol) (MoveTo p0 :: els) out.
+Proof. intros T S. exact (@flatten_runs_gen T S). Qed.
+
+(** the same without the numeric content: n >= 1 LineTo per curve, the last one the stored end point *)
+Theorem C05_flatten_runs_shape : forall (T : Type) (S : Scalar T) (tol : T) p0 els out,
+  flatten tol (MoveTo p0 :: els) = Some out ->
+  exists runs, out = concat runs /\ Forall2 run_shape (MoveTo p0 :: els) runs.
+Proof. intros T S. exact (@flatten_runs_shape T S). Qed.
+
+(** ... and the segment each curve run is computed from is exactly the one [segments] yields for
+    that element ("one run per input segment") — real instance, where [Point] equality is Leibniz *)
+Theorem C05_flatten_runs_segments : forall (tol : R) p0 els out,
+  flatten tol (MoveTo p0 :: els) = Some out ->
+  exists sgs runs,
+    seg_trace None (MoveTo p0 :: els) = Some sgs /\
+    segments (MoveTo p0 :: els) = Some (somes sgs) /\
+    out = concat runs /\
+    Forall2 (fun es run => run_for_seg tol (sqrt tol) (fst es) (snd es) run)
+            (combine (MoveTo p0 :: els) sgs) runs.
+Proof. exact flatten_runs_segments. Qed.
+
+(** ** flatten_runs_refuted: the PINNED code violates "one run per input segment".
+    Witness (DESIGN section 5, finding 11): M0,0 L10,0 Z Q5,5 10,10 L0,10 at tolerance 0.1.
+    [segments] yields the quadratic (0,0),(5,5),(10,10) for the QuadTo; the pinned [flatten]
+    (last_pt = None on ClosePath) emits nothing for it, so its output cannot be split into
+    one non-empty run per element. *)
+Theorem C05_flatten_runs_refuted :
+  exists (tol : R) els out,
+    (exists p r, els = MoveTo p :: r) /\
+    (exists q, In (SegQuad q) (match segments els with Some l => l | None => [] end)) /\
+    flatten_pinned tol els = Some out /\
+    ~ exists runs, out = concat runs /\ Forall2 run_shape els runs.
+Proof. exact flatten_runs_refuted. Qed.
+
+(** the pinned code on the witness, for every scalar type (binary64 included) *)
+Theorem C05_flatten_pinned_witness : forall (T : Type) (S : Scalar T) (tol : T) a b c d e,
+  flatten_pinned tol [MoveTo a; LineTo b; @ClosePath T; QuadTo c d; LineTo e]
+  = Some [MoveTo a; LineTo b; @ClosePath T; LineTo e].
+Proof. intros T S. exact (@flatten_pinned_witness T S). Qed.
+
+(** the pinned code and the required behaviour agree on every element list in which no QuadTo /
+    CurveTo directly follows a ClosePath (any scalar): the defect is confined to that pattern *)
+Theorem C05_flatten_pinned_agrees : forall (T : Type) (S : Scalar T) (tol : T) els,
+  no_curve_after_close false els = true -> flatten_pinned tol els = flatten tol els.
+Proof. intros T S. exact (@flatten_pinned_agrees T S). Qed.
+
+(** ** flatten_vertices_on_quad: every interior vertex of a quadratic's run is [quad_eval q t]
+    with 0 < t < 1, and the parameters strictly increase along the run — every quadratic
+    (collinear control points give n = 1, no interior vertex), every sqrt_tol *)
+Theorem C05_flatten_vertices_on_quad : forall (q : QuadBez R) (sqrt_tol : R),
+  exists ts, flatten_quad_pts q sqrt_tol = map (quad_eval q) ts /\
+             Forall (fun t => 0 < t < 1) ts /\ StronglySorted Rlt ts.
+Proof. exact quad_vertices. Qed.
+
+(** ** subdiv_t_monotone: both parabola-integral approximations are strictly increasing on R;
+    hence for a quadratic with non-collinear control points [determine_subdiv_t] is strictly
+    increasing, maps 0 to 0, 1 to 1, and [0,1] into [0,1] *)
+Theorem C05_approx_parabola_integral_increasing : forall x y : R, x < y ->
+  approx_parabola_integral x < approx_parabola_integral y.
+Proof. exact api_model_incr. Qed.
+Theorem C05_approx_parabola_inv_integral_increasing : forall x y : R, x < y ->
+  approx_parabola_inv_integral x < approx_parabola_inv_integral y.
+Proof. exact apinv_model_incr. Qed.
+
+Theorem C05_subdiv_t_monotone : forall (q : QuadBez R) (sqrt_tol : R), quad_cross q <> 0 ->
+  let p := estimate_subdiv q sqrt_tol in
+  determine_subdiv_t p 0 = 0 /\ determine_subdiv_t p 1 = 1 /\
+  (forall x y, x < y -> determine_subdiv_t p x < determine_subdiv_t p y) /\
+  (forall x, 0 <= x <= 1 -> 0 <= determine_subdiv_t p x <= 1).
+Proof. exact subdiv_t_monotone. Qed.
+
+(** the same from the facts about the parameters alone (u0, uscale consistent, a0 <> a2) *)
+Theorem C05_subdiv_t_monotone_params : forall p : FlattenParams R,
+  fp_u0 p = approx_parabola_inv_integral (fp_a0 p) ->
+  fp_uscale p = 1 / (approx_parabola_inv_integral (fp_a2 p) - approx_parabola_inv_integral (fp_a0 p)) ->
+  fp_a0 p <> fp_a2 p ->
+  determine_subdiv_t p 0 = 0 /\ determine_subdiv_t p 1 = 1 /\
+  (forall x y, x < y -> determine_subdiv_t p x < determine_subdiv_t p y).
+Proof. exact subdiv_t_monotone_params. Qed.
+
+Example C05_subdiv_t_monotone_instance :
+  quad_cross (mkQuad (mkPoint 0 0) (mkPoint 1 1) (mkPoint 2 0) : QuadBez R) <> 0.
+Proof. exact ex_cross. Qed.
+
+(** ** flatten_cubic_vertices: the second loop never runs away; every interior vertex of a cubic's
+    run is a point of one of the [to_quads] quadratics (tolerance budget 0.1), the quadratics
+    visited in order, at parameters in [0,1) that strictly increase within each quadratic *)
+Theorem C05_flatten_cubic_vertices : forall (c : CubicBez R) (tol sqrt_tol : R), 0 <= sqrt_tol ->
+  exists tss,
+    flatten_cubic_pts c tol sqrt_tol
+      = Some (quads_pts (map snd (fl_to_quads c (tol * to_quad_tol))) tss) /\
+    length tss = length (fl_to_quads c (tol * to_quad_tol)) /\
+    Forall (fun ts => Forall (fun t => 0 <= t < 1) ts /\ StronglySorted Rlt ts) tss.
+Proof. exact cubic_vertices. Qed.
+
+(** ... hence, given the pointwise bound of [to_quads] (property C17: every quadratic within the
+    accuracy of its cubic piece at corresponding parameters — a hypothesis here), every vertex is
+    within [0.1 * tolerance] of the cubic at a parameter in [0,1), and these parameters strictly
+    increase along the run: vertices advance monotonically, never backwards *)
+Theorem C05_flatten_cubic_vertices_near : forall (c : CubicBez R) (tol sqrt_tol : R), 0 <= sqrt_tol ->
+  (forall i t, (0 <= i < fl_to_quads_n c (tol * to_quad_tol)%R)%Z -> 0 <= t <= 1 ->
+     pt_distance (quad_eval (snd (fl_to_quad c (fl_to_quads_n c (tol * to_quad_tol)) i)) t)
+                 (cubic_eval c (piece_param c (fl_to_quads_n c (tol * to_quad_tol)) i t))
+     <= tol * to_quad_tol) ->
+  exists pts us, flatten_cubic_pts c tol sqrt_tol = Some pts /\
+    Forall2 (fun v u => pt_distance v (cubic_eval c u) <= tol * to_quad_tol) pts us /\
+    Forall (fun u => 0 <= u < 1) us /\ StronglySorted Rlt us.
+Proof. exact cubic_vertices_near. Qed.
+
+(* non-vacuity: a degree-raised parabola satisfies the hypothesis (its single quadratic is exact) *)
+Example C05_flatten_cubic_vertices_near_instance :
+  let c : CubicBez R := mkCubic (mkPoint 0 0) (mkPoint 2 2) (mkPoint 4 2) (mkPoint 6 0) in
+  forall i t, (0 <= i < fl_to_quads_n c (1 * to_quad_tol)%R)%Z -> 0 <= t <= 1 ->
+     pt_distance (quad_eval (snd (fl_to_quad c (fl_to_quads_n c (1 * to_quad_tol)) i)) t)
+                 (cubic_eval c (piece_param c (fl_to_quads_n c (1 * to_quad_tol)) i t))
+     <= 1 * to_quad_tol.
+Proof. exact ex_raised_within. Qed.
+
+(** ** flatten_scale_partial: scaling path and tolerance by k > 0 scales the output by k.
+    Proved for the whole of [flatten] (every element list, pinned and required behaviour), but
+    only in exact arithmetic — hence "partial": on binary64 it is exact only when k is a power
+    of four (sqrt(k) exact), which the law [scale] checks on the implementation. *)
+Theorem C05_flatten_scale_partial : forall (k : R), 0 < k -> forall keep (tol : R) (els : list (PathEl R)),
+  flatten_gen keep (k * tol) (map (scale_el k) els)
+  = option_map (map (scale_el k)) (flatten_gen keep tol els).
+Proof. exact flatten_gen_scale. Qed.
+
+(** ** NOT proved: the distance bound. The property claims, for tolerance <= 1e-3 x extent and
+    minimum speed >= 5% of maximum speed, Hausdorff distance (curve, polyline) <= 4 x tolerance;
+    the source says the bound "is not absolutely guaranteed". It is kept here as a definition
+    and covered by the law [hausdorff] (dense sampling on the implementation) only. *)
+Definition C05_distance_bound_claim : Prop :=
+  forall (q : QuadBez R) (tol : R), 0 < tol ->
+    (* tolerance small against the segment: two control points at least 1000 tol apart *)
+    (1000 * tol <= pt_distance (q0 q) (q2 q) \/ 1000 * tol <= pt_distance (q0 q) (q1 q)
+     \/ 1000 * tol <= pt_distance (q1 q) (q2 q)) ->
+    (* minimum speed at least 5% of the maximum speed *)
+    (forall s t, 0 <= s <= 1 -> 0 <= t <= 1 ->
+       v_hypot (to_vec2 (line_eval (quad_deriv q) t)) <= 20 * v_hypot (to_vec2 (line_eval (quad_deriv q) s))) ->
+    forall t, 0 <= t <= 1 ->
+    exists l1 v w l2 u,
+      q0 q :: flatten_quad_pts q (sqrt tol) ++ [q2 q] = l1 ++ v :: w :: l2 /\ 0 <= u <= 1 /\
+      pt_distance (quad_eval q t) (pt_lerp v w u) <= 4 * tol.
+
+(** ** binary64 instances (vm_compute on the very model the correspondence ties to the crate) *)
+From Coq Require Import Floats.
+From KV Require Import F64.
+Section F64Instances.
+Local Open Scope float_scope.
+Let P (x y : float) : Point float := mkPoint x y.
+
+(* the pinned code drops the quadratic's run; the required behaviour emits it, ending exactly at
+   the stored end point (10,10) (the witness quadratic is collinear: a single LineTo) *)
+Example C05_refuted_f64 :
+  let els := [MoveTo (P 0 0); LineTo (P 10 0); @ClosePath float; QuadTo (P 5 5) (P 10 10); LineTo (P 0 10)] in
+  flatten_pinned (H := F64) 0x1.999999999999ap-4 els
+    = Some [MoveTo (P 0 0); LineTo (P 10 0); @ClosePath float; LineTo (P 0 10)] /\
+  flatten (H := F64) 0x1.999999999999ap-4 els
+    = Some [MoveTo (P 0 0); LineTo (P 10 0); @ClosePath float; LineTo (P 10 10); LineTo (P 0 10)].
+Proof. split; vm_compute; reflexivity. Qed.
+
+(* a cubic and a quadratic run on binary64: 12 resp. 6 LineTo, the last one the stored end point *)
+Example C05_runs_f64 :
+  option_map (fun o => (length o, last o (@ClosePath float)))
+             (flatten (H := F64) 0.25 [MoveTo (P 0 0); CurveTo (P 10 30) (P 50 40) (P 90 0)])
+    = Some (13%nat, LineTo (P 90 0)) /\
+  option_map (fun o => (length o, last o (@ClosePath float)))
+             (flatten (H := F64) 0.25 [MoveTo (P 0 0); QuadTo (P 5 9) (P 10 0)])
+    = Some (5%nat, LineTo (P 10 0)).
+Proof. split; vm_compute; reflexivity. Qed.
+End F64Instances.
